@@ -226,10 +226,12 @@ class Ctx:
     ev = dict(property_id=self.prop, tier=self.tier, seed=self.seed, level='proof', coverage=cov,
               assumptions=self.meta.get('assumptions', []) + self.notes, wall_s=round(time.time() - self.t0, 2),
               violations=violations)
-    os.makedirs(os.path.join(VERIF, 'evidence'), exist_ok=True)
-    tmp = os.path.join(VERIF, 'evidence', self.prop + '.json.tmp')
+    # runs against a scratch tree ($VERIF_REPO) must not overwrite the evidence of /repo itself
+    edir = os.path.join(VERIF, 'evidence') if os.path.realpath(REPO) == '/repo' else os.path.join(WORK, 'evidence_scratch')
+    os.makedirs(edir, exist_ok=True)
+    tmp = os.path.join(edir, self.prop + '.json.tmp')
     json.dump(ev, open(tmp, 'w'), indent=1, default=str)
-    os.replace(tmp, os.path.join(VERIF, 'evidence', self.prop + '.json'))
+    os.replace(tmp, os.path.join(edir, self.prop + '.json'))
 
 def _load_findings():
   p = os.path.join(VERIF, 'KNOWN_FINDINGS.json')
